@@ -13,7 +13,8 @@ CASES = {
     "while": "def f(x: int) -> int:\n    while x > 0:\n        x = x - 1\n    return x\n",
     "truthiness of Optional": "from typing import Optional\ndef f(x: Optional[str]) -> bool:\n    if x:\n        return True\n    return False\n",
     "truthiness of tuple": "from typing import Tuple\ndef f(x: Tuple[int, int]) -> bool:\n    return not x\n",
-    "or on str": "def f(x: str, y: str) -> str:\n    return x or y\n",
+    "or on three strs": "def f(x: str, y: str, z: str) -> str:\n    return x or y or z\n",
+    "or between str and int": "def f(x: str, y: int) -> str:\n    return x or y\n",
     "alias then mutate": "def f(p: str) -> str:\n    a = p.split('/')\n    b = a\n    a[-1] = 'x'\n    return '/'.join(b)\n",
     "mutate param": "from typing import List\ndef f(a: List[str]) -> str:\n    a.append('x')\n    return '/'.join(a)\n",
     "fall off": "def f(x: int) -> bool:\n    if x > 0:\n        return True\n",
@@ -85,8 +86,38 @@ CASES = {
     "truthiness ok (control)": "def f(x: str, n: int) -> bool:\n    if x and not n:\n        return True\n    return False\n",
     "nested raiser ok (control)": "def f(x: int, name: str) -> int:\n    def err(m: str) -> ValueError:\n        return ValueError(f'{name}: {m}')\n    if x > 0:\n        raise err('positive')\n    return 1\n",
     "rsplit ok (control)": "def f(x: str) -> str:\n    return x.rsplit('/', 1)[-1] + x.rpartition('/')[2]\n",
+    # loops: only the accumulate loop and the three spellings of the stream read loop
+    "while with condition": "def f(x: int) -> int:\n    n = 0\n    while n < x:\n        n = n + 1\n    return n\n",
+    "read loop with else": "def f(data: 'stream') -> str:\n    h = mk()\n    while True:\n        c = data.read(4)\n        if not c:\n            break\n        h.update(c)\n    else:\n        h.update(b'')\n    return h.hexdigest()\n",
+    "read loop with extra statement": "def f(data: 'stream') -> str:\n    h = mk()\n    n = 0\n    while True:\n        c = data.read(4)\n        if not c:\n            break\n        h.update(c)\n        n = n + 1\n    return h.hexdigest()\n",
+    "read loop breaking on other test": "def f(data: 'stream') -> str:\n    h = mk()\n    while True:\n        c = data.read(4)\n        if len(c) < 4:\n            break\n        h.update(c)\n    return h.hexdigest()\n",
+    "read loop updating before the test": "def f(data: 'stream') -> str:\n    h = mk()\n    while True:\n        c = data.read(4)\n        h.update(c)\n        if not c:\n            break\n    return h.hexdigest()\n",
+    "readinto loop": "def f(data: 'stream') -> str:\n    h = mk()\n    buf = bytearray(4)\n    while data.readinto(buf):\n        h.update(buf)\n    return h.hexdigest()\n",
+    "read outside a loop": "def f(data: 'stream') -> str:\n    h = mk()\n    c = data.read(4)\n    h.update(c)\n    return h.hexdigest()\n",
+    "read size depends on chunk": "def f(data: 'stream') -> str:\n    h = mk()\n    c = b''\n    while c := data.read(len(c)):\n        h.update(c)\n    return h.hexdigest()\n",
+    "iter with other sentinel": "def f(data: 'stream') -> str:\n    h = mk()\n    for c in iter(lambda: data.read(4), None):\n        h.update(c)\n    return h.hexdigest()\n",
+    "for with early return": "from typing import List\ndef f(a: List[int]) -> int:\n    for x in a:\n        if x > 0:\n            return x\n    return 0\n",
+    "for accumulating a sum": "from typing import List\ndef f(a: List[int]) -> int:\n    n = 0\n    for x in a:\n        n = n + x\n    return n\n",
+    "for reading the accumulator": "from typing import List\ndef f(a: List[int]) -> int:\n    acc = []\n    for x in a:\n        if len(acc) < 2:\n            acc.append(x)\n    return len(acc)\n",
+    "try around two lookups": "def f(k: str) -> str:\n    try:\n        a = TBL[k]\n        b = TBL[k + 'x']\n    except KeyError:\n        raise ValueError('no')\n    return a.hexdigest()\n",
+    "try with other exception": "def f(k: str) -> str:\n    try:\n        a = TBL[k]\n    except ValueError:\n        raise ValueError('no')\n    return a.hexdigest()\n",
+    "try with call inside": "def f(k: str) -> str:\n    try:\n        a = TBL[k]\n        b = mk()\n    except KeyError:\n        raise ValueError('no')\n    return a.hexdigest()\n",
+    "try handler that swallows": "def f(k: str) -> str:\n    try:\n        a = TBL[k]\n    except KeyError:\n        a = mk()\n    return a.hexdigest()\n",
+    "mutating a parameter object": "def f(h: 'Hasher', c: bytes) -> str:\n    h.update(c)\n    return h.hexdigest()\n",
+    "read loop ok (control)": "def f(data: 'stream') -> str:\n    h = mk()\n    while True:\n        c = data.read(h.block_size)\n        if not c:\n            break\n        h.update(c)\n    return h.hexdigest()\n",
+    "walrus read loop ok (control)": "def f(data: 'stream') -> str:\n    h = mk()\n    while c := data.read(h.block_size):\n        h.update(c)\n    return h.hexdigest()\n",
+    "iter read loop ok (control)": "def f(data: 'stream') -> str:\n    h = mk()\n    for c in iter(lambda: data.read(8), b''):\n        h.update(c)\n    return h.hexdigest()\n",
+    "for accumulate ok (control)": "from typing import List\ndef f(a: List[int]) -> str:\n    acc = []\n    for x in a:\n        if x > 0:\n            acc.append(str(x))\n    return ','.join(acc)\n",
+    "try lookup ok (control)": "def f(k: str) -> str:\n    try:\n        a = TBL[k]\n    except KeyError:\n        raise ValueError(f'no {k}')\n    return a.hexdigest()\n",
 }
-EXPECT_OK = {"truthiness ok (control)", "nested raiser ok (control)", "rsplit ok (control)", "raise in assigning branch", "format ok (control)", "generator in join (control)"}
+SPEC = {
+    "records": {"Hasher": {"coq": "HS", "fields": {"block_size": ("py_block_size", "int")},
+                           "mutators": {"update": ("py_update", ["bytes"])}, "methods": {"hexdigest": ("py_hexdigest", "str")}}},
+    "opaque": {"mk": {"ret": "Hasher"}},
+    "dicts": {"TBL": {"coq": "py_tbl", "key": "str", "value": "Hasher"}},
+}
+EXPECT_OK = {"read loop ok (control)", "walrus read loop ok (control)", "iter read loop ok (control)",
+             "for accumulate ok (control)", "try lookup ok (control)", "truthiness ok (control)", "nested raiser ok (control)", "rsplit ok (control)", "raise in assigning branch", "format ok (control)", "generator in join (control)"}
 
 
 def main() -> int:
@@ -97,7 +128,7 @@ def main() -> int:
         os.close(fd)
         fn = "B.f" if "class B" in src else "f"
         try:
-            py2coq.translate(path, {"functions": [{"py": fn, "params": {"self": "int"}}]})
+            py2coq.translate(path, dict(SPEC, functions=[{"py": fn, "params": {"self": "int"}}]))
             if name in EXPECT_OK:
                 print("accepted (control):", name)
             else:
